@@ -697,6 +697,54 @@ Proof.
     symmetry. apply Nat.eqb_neq. lia.
 Qed.
 
+(* ------------------------------------------------------------------ least priority after a grant *)
+
+(* the input granted last has the LEAST priority afterwards: with the pointer just past input i, i is
+   granted only when no other input requests *)
+Lemma last_granted_least_priority n reqs i j :
+  0 < n -> i < n -> j < n -> j <> i -> reqs j = true ->
+  spec_grants n reqs ((i + 1) mod n) i = false.
+Proof.
+  intros Hn Hi Hj Hne Hr. unfold spec_grants.
+  destruct (spec_grant_index n reqs ((i + 1) mod n)) as [g|] eqn:E; [|reflexivity].
+  apply Nat.eqb_neq. intros <-.
+  apply spec_index_some in E; [|exact Hn|apply mod_lt'; exact Hn].
+  destruct E as [_ [_ [k [Hk [Hg Hno]]]]].
+  set (p := (i + 1) mod n) in *.
+  assert (Hp : p = if i + 1 <? n then i + 1 else 0).
+  { unfold p. rewrite (mod_wrap (i + 1) n) by lia. destruct (Nat.ltb_spec (i + 1) n); lia. }
+  assert (Hpn : p < n) by (destruct (Nat.ltb_spec (i + 1) n); lia).
+  rewrite (mod_wrap (p + k) n) in Hg by lia.
+  set (d := if p <=? j then j - p else j + n - p).
+  assert (Hd : d < k /\ (p + d) mod n = j).
+  { unfold d. destruct (Nat.leb_spec p j).
+    - split.
+      + destruct (Nat.ltb_spec (p + k) n), (Nat.ltb_spec (i + 1) n); lia.
+      + rewrite (mod_wrap (p + (j - p)) n) by lia.
+        destruct (Nat.ltb_spec (p + (j - p)) n); lia.
+    - split.
+      + destruct (Nat.ltb_spec (p + k) n), (Nat.ltb_spec (i + 1) n); lia.
+      + rewrite (mod_wrap (p + (j + n - p)) n) by lia.
+        destruct (Nat.ltb_spec (p + (j + n - p)) n); lia. }
+  destruct Hd as [Hd1 Hd2]. specialize (Hno d Hd1). rewrite Hd2, Hr in Hno. discriminate.
+Qed.
+
+(* model level: right after an advancing cycle in which input g was granted, g is granted again in the
+   next cycle only if it is the sole requester *)
+Theorem no_back_to_back_grant n isEn p c c' g j :
+  0 < n -> p < n -> c_rst c = false -> advances isEn c = true ->
+  spec_grant_index n (c_reqs c) p = Some g ->
+  j < n -> j <> g -> c_reqs c' j = true ->
+  nth g (fst (step n isEn (snd (step n isEn (ptr_state n p) c)) c')) false = false.
+Proof.
+  intros Hn Hp Hr Ha E Hj Hne Hreq.
+  pose proof (spec_index_some n (c_reqs c) p g Hn Hp E) as [Hg _].
+  rewrite (next_pointer n isEn p c g Hn Hp Hr E), Ha.
+  rewrite step_refines by (try apply mod_lt'; assumption). cbn [fst].
+  unfold to_list. rewrite nth_map_seq. destruct (Nat.ltb_spec g n); [|reflexivity].
+  cbn [Nat.add]. apply (last_granted_least_priority n (c_reqs c') g j); assumption.
+Qed.
+
 (* ------------------------------------------------------------------ harness interface facts *)
 
 Lemma zlist_eqb_eq a : forall b, zlist_eqb a b = true <-> a = b.
